@@ -90,7 +90,7 @@ func tables() []tbl {
 	sv := []bqlm.Proj{pj("?s"), pj("?v")}
 	one := func(id string) []bqlm.Clause { return []bqlm.Clause{cl(bt("?s"), pc(id), bt("?v"))} }
 	out = append(out, mk("int64", one("ki"), sv, nil, "?v", []bqlm.Operand{I(-4), I(-3), I(0), I(3)}, []bqlm.Operand{F(0), X("0"), N("/u", "a")}))
-	out = append(out, mk("float64", one("kf"), sv, nil, "?v", []bqlm.Operand{F(-1.0), F(-0.25), F(0.05), F(1e21)}, []bqlm.Operand{I(0), X("0.1")}))
+	out = append(out, mk("float64", one("kf"), sv, nil, "?v", []bqlm.Operand{F(-1.0), F(-0.25), F(0.05), F(1e21), F(0.1000001), F(-0.2500001)}, []bqlm.Operand{I(0), X("0.1")}))
 	out = append(out, mk("text", one("kt"), sv, nil, "?v", []bqlm.Operand{X("a"), X("a!"), X("aa"), X("B")}, []bqlm.Operand{I(1), N("/u", "a")}))
 	tw := []bqlm.Clause{cl(bt("?s"), bqlm.Term{Kind: bqlm.AnchorBind, ID: "t", Name: "?v"}, bt("?o"))}
 	out = append(out, mk("time", tw, sv, nil, "?v", []bqlm.Operand{Tm(1, 0), Tm(2, 3), Tm(3, -8)}, []bqlm.Operand{X("2016-01-01T00:00:00Z"), I(0)}))
